@@ -342,5 +342,15 @@ example : (RotationTo (⟨1, 0, 0⟩ : P3) ⟨-1, 0, 0⟩).Rotate ⟨1, 0, 0⟩ 
   · simp [V3.Dot, rotThreshold]; norm_num
 
 
+/-! ### non-vacuity: concrete instances of the hypotheses used above -/
+
+example : (mat.Identity : M4).Determinant ≠ 0 := by simp [Matrix4x4.Determinant, mat.Identity]
+example : normSq (⟨⟨0, 0, 0⟩, 1⟩ : Q) = 1 := by simp [normSq, V3.Dot]
+example : (⟨1, 0, 0⟩ : P3).Dot ⟨1, 0, 0⟩ = 1 ∧ (⟨0, 1, 0⟩ : P3).Dot ⟨0, 1, 0⟩ = 1 ∧
+    ¬ (⟨1, 0, 0⟩ : P3).Dot ⟨0, 1, 0⟩ < -rotThreshold ∧ ¬ rotThreshold < (⟨1, 0, 0⟩ : P3).Dot ⟨0, 1, 0⟩ := by
+  refine ⟨by simp [V3.Dot], by simp [V3.Dot], ?_, ?_⟩ <;> simp [V3.Dot, rotThreshold] <;> norm_num
+example : (⟨⟨0, 0, 0⟩, ⟨1, 1, 1⟩⟩ : AABB ℝ).Contains ⟨1, -1, 0.5⟩ = true := by
+  rw [aabb_contains_iff]; simp [AABB.Min, AABB.Max, V3.Sub, V3.Add]; norm_num
+
 end C17
 end PolyVerif
